@@ -324,15 +324,15 @@ PARTIAL = [
     "- an observation, not a C03 clause",
     "generate_from_var_flag_resolution is about a fixed template emitted after the translator matched the source expression: a source edit "
     "breaks the translator (reported as a broken obligation), not the proof",
-    "stacked vectors shorter than one HS (flag on) and dimension 0 are outside the modelled domain of mpVarOfStacked (model returns none, numpy "
-    "does not raise); the value conversions are a hand model tied to the code by the correspondence only",
+    "dimension 0 is outside the modelled domain; the value conversions are a hand model tied to the code by the correspondence only "
+    "(incl. numpy's clipped negative slice for stacked vectors shorter than one HS)",
 ]
 
 
 def correspondence(ctx):
     ctx.partial = list(PARTIAL)
     ctx.notes.append("index maps and num_variables are QGen.C03 definitions regenerated from the Python source on every run; "
-                     "dimension-0 systems and stacked vectors shorter than one HS are outside the modelled domain")
+                     "dimension-0 systems are outside the modelled domain")
     drv = Driver("C03")
     pend = []   # (op, input description, impl result, request index, comparison kind)
     g = ctx.npgen(1)
@@ -380,6 +380,14 @@ def correspondence(ctx):
             r = attempt(lambda: gen().to_stacked_vector())
             add("generate_from_var/object", (cfg, rf, var_e.tolist()), r, ask_v2o(drv, ty, c, var_e, eff))
             ctx.case(("genfromvar", cfg, rf), nontrivial=rf is not None and rf != flag)
+        # stacked vectors shorter than one HS matrix (negative slice bounds in numpy): same result on both sides
+        if ty == "mprocess" and flag:
+            for L in sorted({0, 1, d * d - 1, d ** 4 - d * d, d ** 4 - d * d + 1, d ** 4 - 1}):
+                if 0 <= L < d ** 4:
+                    short = rand_vals(g, L)
+                    r = attempt(lambda: stacked_to_var(ty, c, short, flag))
+                    add("stacked->var/short", (cfg, L), r, ask_s2v(drv, ty, c, short, flag))
+                    ctx.case(("short", cfg, L), nontrivial=True)
         # wrong lengths: both sides must reject (or both accept)
         if ty != "state":
             for delta in (1, -1, d * d):
